@@ -9,6 +9,7 @@ let acn_op (args : string list) : string =
                          | _ -> failwith "bad handler") (List.tl parts) in
     let t = new_trace () in
     let hs = ref hs0 in
+    let ts = ref [] in
     let ni n = string_of_int (int_of_n n) in
     let ev_s e = match e with
       | AcnEvData u -> "d" ^ ni u
@@ -25,6 +26,10 @@ let acn_op (args : string list) : string =
         let changed = (hs' <> !hs) in
         hs := hs';
         let evs = List.rev evs in
+        ts := track_events !ts [] evs;
+        let known = (match List.sort compare (List.map (fun s -> hex_of_bytes s.t_cid ^ "." ^ hex_of_bytes s.t_name ^ "." ^
+                         (if s.t_unis = [] then "-" else String.concat "_" (List.map ni s.t_unis))) !ts) with
+                     | [] -> "-" | l -> String.concat "," l) in
         t.cls <- (if List.exists (fun e -> match e with EvRdm133 _ -> true | _ -> false) evs then "e133"
                   else if List.exists (fun e -> match e with EvLlrp _ -> true | _ -> false) evs then "llrp"
                   else if List.exists (fun e -> match e with EvPage _ -> true | _ -> false) evs then "page"
@@ -34,9 +39,22 @@ let acn_op (args : string list) : string =
         let src_s s = hex_of_bytes s.s_cid ^ "." ^ ni s.s_seq ^ "." ^ dbuf_s s.s_buf in
         let h_s h = "|u" ^ ni h.u_uni ^ ":" ^ dbuf_s h.u_buf ^ ":" ^ ni h.u_ap ^ ":" ^
                     String.concat "," (List.map src_s h.u_srcs) in
-        t.steps <- ("e:" ^ es ^ String.concat "" (List.map h_s hs')) :: t.steps;
-        trace_out t ("e:" ^ es ^ String.concat "" (List.map (fun h -> "|u" ^ ni h.u_uni ^ ":" ^ dbuf_s h.u_buf ^ ":" ^ ni h.u_ap) hs')))
+        t.steps <- ("e:" ^ es ^ String.concat "" (List.map h_s hs') ^ "|k:" ^ known) :: t.steps;
+        trace_out t ("e:" ^ es ^ String.concat "" (List.map (fun h -> "|u" ^ ni h.u_uni ^ ":" ^ dbuf_s h.u_buf ^ ":" ^ ni h.u_ap) hs') ^ "|k:" ^ known))
       dgs with Exit -> ());
     trace_result t "acn"
   | _ -> "bad-args"
 let () = register "acn" acn_op
+
+(* dmpaddr <size> <type> <data>: DecodeAddress on exactly these bytes (capacity = their number) *)
+let () = register "dmpaddr" (fun args ->
+  match args with
+  | [_; size; typ; data] ->
+    let d = bytes_of_hex data in
+    (match run d (decode_address (n_of_int (ios size)) (n_of_int (ios typ)) (n_of_int (List.length d))) with
+     | Hazard h -> "hz=" ^ hazard_s h ^ ";twin=1;class=dmpaddr:hazard"
+     | Done (a, len) ->
+       let o = (match a with None -> "a:null" | Some ((s, i), n) -> "a:" ^ string_of_n s ^ "." ^ string_of_n i ^ "." ^ string_of_n n)
+               ^ "|len:" ^ string_of_n len in
+       "hz=none;twin=1;s0=" ^ o ^ ";o0=" ^ o ^ ";class=dmpaddr:" ^ (match a with None -> "null" | Some _ -> "decoded"))
+  | _ -> "bad-args")
